@@ -89,6 +89,25 @@ def check(case):
         return None
     # numeric
     fl = [float(x) for x in xs]
+    if case['kind'] == 'huge':
+        # squares overflow: only the statistics that do not need them
+        tot = math.fsum(fl)
+        if d['min'] != min(xs) or d['max'] != max(xs):
+            return 'minmax', '%r: min %r max %r' % (vals, d['min'], d['max'])
+        if not isinstance(d['total'], (int, float)) or \
+                abs(d['total'] - tot) > 1e-9 * sum(abs(x) for x in fl):
+            return 'total', '%r: total %r expected %r' % (vals, d['total'],
+                                                          tot)
+        if not isinstance(d['mean'], (int, float)) or \
+                abs(d['mean'] - tot / c) > 1e-9 * sum(abs(x) for x in fl):
+            return 'mean', '%r: mean %r expected %r' % (vals, d['mean'],
+                                                        tot / c)
+        sx = sorted(xs)
+        m = d['median']
+        if not isinstance(m, (int, float)) or not (
+                sx[(c - 1) // 2] <= m <= sx[c // 2]):
+            return 'median-huge', '%r: median %r' % (vals, m)
+        return None
     msq = sum(x * x for x in fl) / c
     tol = 1e-9 * (1 + msq)
     # the variances are computed as (sum of squares)/n - mean**2: with at
@@ -180,9 +199,16 @@ def strategy():
         st.booleans()).map(lambda t: dict(
             kind='mixnum', vals=[t[0] + x for x in t[1]] + (
                 [None] if t[2] else [])))
+    # magnitudes whose square is not a finite float
+    huge = st.lists(st.one_of(
+        st.sampled_from([1e200, -1e180, 1.5e154, 1e155, -2e155, 1e300]),
+        floats, small, none), min_size=1, max_size=7).filter(
+            lambda v: any(isinstance(x, float) and abs(x) > 1e154
+                          for x in v)).map(
+                              lambda v: dict(kind='huge', vals=v))
     base = st.one_of(lst(ints, 'int'), lst(small, 'int'), lst(floats,
                                                               'float'),
-                     mix, lst(strs, 'str'), eqf, near)
+                     mix, lst(strs, 'str'), eqf, near, huge)
     return st.tuples(base, st.booleans()).map(
         lambda t: dict(t[0], mapping=t[1]))
 
@@ -195,7 +221,7 @@ def nontrivial(case):
 
 
 def plan(tier, seed):
-    n = 400 if tier == 'quick' else 7000
+    n = 1500 if tier == 'quick' else 10000
     return [dict(seed=seed * 1000 + i, n=n) for i in range(16)]
 
 
